@@ -80,21 +80,23 @@ EvalArgs(ref, args, i) ==            \* left to right; result v = sequence of va
     ELSE LET a == Eval(ref, args[i]) IN IF ~a.ok THEN a ELSE
          LET r == EvalArgs(ref, args, i + 1) IN IF ~r.ok THEN r ELSE Val(<<a.v>> \o r.v)
 
-\* string bytes the evaluation of e may occupy: the value of every node (operands on the evaluation stack may be
-\* stored a second time by a collection, DEF FN arguments are held by the argument and by the parameter)
+\* string bytes the evaluation of e may occupy: the value of every node that is stored in string space (literals of
+\* direct-mode statements, results of concatenations and functions; a variable operand is not copied).  Every
+\* temporary of the statement may be alive at the same time.
 RECURSIVE Need(_, _), NeedArgs(_, _, _)
 Need(ref, e) ==
     LET own == LET r == Eval(ref, e) IN IF r.ok THEN Len(r.v) ELSE 0 IN
-    CASE e.k \in {"lit", "var"} -> own
+    CASE e.k = "lit" -> own
+      [] e.k = "var" -> 0
       [] e.k = "cat" -> own + Need(ref, e.l) + Need(ref, e.r)
-      [] e.k \in {"left", "right", "mid"} -> own + 2 * Need(ref, e.e)
+      [] e.k \in {"left", "right", "mid"} -> own + Need(ref, e.e)
       [] e.k = "fn" ->
            LET f == Fns[e.f]
                as == EvalArgs(ref, e.args, 1) IN
-           own + 2 * NeedArgs(ref, e.args, 1) +
+           NeedArgs(ref, e.args, 1) +
            (IF ~as.ok THEN 0
-            ELSE 2 * Need([c \in DOMAIN ref |-> IF \E i \in 1..Len(f.params) : f.params[i] = c
-                                              THEN as.v[CHOOSE i \in 1..Len(f.params) : f.params[i] = c] ELSE ref[c]], f.body))
+            ELSE Need([c \in DOMAIN ref |-> IF \E i \in 1..Len(f.params) : f.params[i] = c
+                                          THEN as.v[CHOOSE i \in 1..Len(f.params) : f.params[i] = c] ELSE ref[c]], f.body))
 NeedArgs(ref, args, i) == IF i > Len(args) THEN 0 ELSE Need(ref, args[i]) + NeedArgs(ref, args, i + 1)
 
 MidSet(old, start, num, val) ==      \* MID$(v, start[, num]) = val on values (source and target distinct strings)
